@@ -32,13 +32,14 @@ import (
 //     limit  : packed answers longer than this are dropped (0 = no limit)
 //     fail   : to | sf                          unanswered type: dropped (client sees an i/o timeout, the
 //                                               way a real net.Error timeout reaches it) | SERVFAIL reply
-//     dom    : s | m | l                        tunnel domain (short / example.org / long)
+//     dom    : s | m | l | x                    tunnel domain (4 / 11 / 81 / 170 characters)
 //     amap   : id | lower | strip7              map applied to the characters of the answers' rdata (TXT strings,
 //                                               CNAME/MX/SRV target labels, NULL/PRIVATE bytes) on the way back
 //     seed   : decimal                          random casing, payload data
 //     oracle : '-' or  key=outcome,key=outcome  outcome of every distinct probe the client made, as seen
 //              by the client (t transport/decode error, k ok, e server error, l length, c content,
-//              sa/sA case swap, fs fragment size echo, p panic);  key = cmd.q.up.down.e.arg  (client state
+//              sa/sA case swap, fs fragment size echo, p panic, x request cannot be encoded: no query, key
+//              zx.<codec>#<pattern>);  key = cmd.q.up.down.e.arg  (client state
 //              at the time of the probe).  The Lean model walks the same decision logic over this table.
 // result: ok <q> <up> <down> <edns0> <lazy> <upfrag> <downfrag> n=<queries> | err <class> n=<queries> |
 //         budget | hang | PANIC | oracle-changed …
@@ -49,6 +50,7 @@ import (
 const (
 	hsQueryCap  = 3000
 	hsWall      = 20 * time.Second
+	hsIdle      = 5 * time.Second
 	dataWall    = 20 * time.Second
 	dataPerOp   = 4 * time.Second
 	dataQueries = 100000
@@ -96,6 +98,8 @@ var hsDomains = map[string]string{
 	"s": "t.io",
 	"m": "example.org",
 	"l": "tunnel-endpoint-number-one.some-department.a-rather-long-company-name.example.org",
+	// so long that the longer upstream test patterns no longer fit into a query name
+	"x": "tunnel-endpoint-number-one.some-department.a-rather-long-company-name.with-a-very-long-subsidiary-name.and-yet-another-organisational-unit.region-europe-central.example.org",
 }
 
 type hsPath struct {
@@ -205,6 +209,7 @@ type pathComm struct {
 	nondet    string
 	srvPanic  string
 	hsQueries int
+	lastQuery time.Time
 }
 
 func (c *pathComm) Close() error {
@@ -460,6 +465,7 @@ func (c *pathComm) SendAndReceive(m *dns.Msg, timeout *time.Duration) (*dns.Msg,
 	}
 	c.queries++
 	resp, err := c.exchange(m)
+	c.lastQuery = time.Now()
 	if c.phase == 0 {
 		c.record(m, resp, err)
 	} else if hsDebug && err != nil {
@@ -767,7 +773,7 @@ func hsWithTimeout(d time.Duration, f func()) bool {
 
 func runHsPath(p hsPath) hsRun {
 	domain := hsDomains[p.dom]
-	comm := &pathComm{p: p, domain: domain, qcap: hsQueryCap, deadline: time.Now().Add(hsWall), trace: map[string]string{}}
+	comm := &pathComm{p: p, domain: domain, qcap: hsQueryCap, deadline: time.Now().Add(hsWall), trace: map[string]string{}, lastQuery: time.Now()}
 	srv := sdns.NewServerDnsListener(domain, comm)
 	client, err := sdns.NewClientDnsConnection(domain, comm)
 	if err != nil {
@@ -775,6 +781,18 @@ func runHsPath(p hsPath) hsRun {
 	}
 	comm.client = client
 	defer func() { _ = comm.Close() }()
+	// upstream test patterns that do not fit into a query name under this domain never reach the path:
+	// Query fails without sending anything (state-independent, so keyed by codec and pattern only)
+	for _, e := range hsUpOrder {
+		for i, pat := range e.TestPatterns() {
+			rq := &commands.TestUpstreamEncoderRequest{Pattern: hsPattern(pat)}
+			if _, eerr := (commands.Serializer{Domain: domain}).EncodeDnsRequestWithParams(rq, util.QueryTypeCname, nil); eerr != nil {
+				k := fmt.Sprintf("zx.%s#%d", hsCodecName(e), i)
+				comm.trace[k] = "x"
+				comm.order = append(comm.order, k)
+			}
+		}
+	}
 
 	type hsOut struct {
 		err   error
@@ -790,14 +808,29 @@ func runHsPath(p hsPath) hsRun {
 		done <- hsOut{err: client.Handshake()}
 	}()
 	var out hsOut
-	select {
-	case out = <-done:
-	case <-time.After(hsWall + time.Second):
-		comm.exhaust()
+	finished := false
+	start := time.Now()
+	for !finished {
 		select {
 		case out = <-done:
-		case <-time.After(2 * time.Second):
-			return hsRun{result: "hang", monitor: "no-termination: Handshake blocked (no query in flight)", class: "hang", oracle: comm.oracle()}
+			finished = true
+		case <-time.After(20 * time.Millisecond):
+			comm.mu.Lock()
+			idle := time.Since(comm.lastQuery)
+			comm.mu.Unlock()
+			if idle > hsIdle || time.Since(start) > hsWall+time.Second {
+				// no query for a long time (queries are answered instantly): blocked, or out of wall time
+				comm.exhaust()
+				select {
+				case out = <-done:
+					finished = true
+				case <-time.After(2 * time.Second):
+					comm.mu.Lock()
+					orc := comm.oracle()
+					comm.mu.Unlock()
+					return hsRun{result: "hang", monitor: "no-termination: Handshake blocked (no query in flight)", class: "hang", oracle: orc}
+				}
+			}
 		}
 	}
 	comm.mu.Lock()
@@ -1162,7 +1195,7 @@ func (d *dnshsComp) Gen(r *Rand, tier string, emit func(op string)) {
 						if (mask+l)%5 == 0 {
 							fail = "sf"
 						}
-						add(cm, s7 == 1, mask, l, fail, []string{"m", "s", "l"}[(mask+s7)%3])
+						add(cm, s7 == 1, mask, l, fail, []string{"m", "s", "l", "x"}[(mask+s7)%4])
 					}
 				}
 			}
@@ -1198,6 +1231,7 @@ func (d *dnshsComp) Gen(r *Rand, tier string, emit func(op string)) {
 		for i := 0; i < 8; i++ {
 			add("id", false, 1<<uint(7-i), 0, "sf", "s")
 			add("lower", false, 1<<uint(7-i), 0, "to", "l")
+			add("id", true, 1<<uint(7-i), 4096, "to", "x")
 		}
 		// answers that are not 8-bit / case clean: every single type, then some mixes
 		for i := 0; i < 8; i++ {
@@ -1207,7 +1241,7 @@ func (d *dnshsComp) Gen(r *Rand, tier string, emit func(op string)) {
 		}
 		// random members of the family
 		for k := 0; k < 40; k++ {
-			add(hsCases[r.Intn(4)], r.Intn(4) == 0, r.Intn(256), hsLimits[r.Intn(len(hsLimits))], []string{"to", "sf"}[r.Intn(2)], []string{"m", "s", "l"}[r.Intn(3)])
+			add(hsCases[r.Intn(4)], r.Intn(4) == 0, r.Intn(256), hsLimits[r.Intn(len(hsLimits))], []string{"to", "sf"}[r.Intn(2)], []string{"m", "s", "l", "x"}[r.Intn(4)])
 		}
 	}
 	// run the paths on a worker pool, then emit in order (results are cached by op line)
